@@ -241,6 +241,9 @@ def r5(ctx):
             forms["dtype"] = (p.test, r.value)
     w = forms.get("with")
     wo = forms.get("without")
+    if w is None and wo is None:
+        raise AnalysisError(f"{v.site()}: the validator no longer has the sentinel / no-sentinel arms comparing sorted unique values with a range; "
+                            f"a different algorithm cannot be judged dense-or-not by this rule")
     ok_w = w is not None and N.key(w) in (N.key(parse_expr(f"np.all(np.sort(np.unique({a})) == np.concatenate([np.array([-1]), np.arange(np.unique({a}).shape[0] - 1)]))")),
                                          N.key(parse_expr(f"np.all(np.unique({a}) == np.concatenate([np.array([-1]), np.arange(np.unique({a}).shape[0] - 1)]))")),
                                          N.key(parse_expr(f"np.all(np.sort(np.unique({a})) == np.concatenate([np.array([CONTROL_SENTINEL_VALUE]), np.arange(np.unique({a}).shape[0] - 1)]))")))
